@@ -287,6 +287,7 @@ pub fn run(ctx: &Ctx) -> (Report, String) {
         {
             // the decoded-picture clause must actually have been observed on the extreme sizes too
             rep.require("decoded_header_large_sizes_checked", 60);
+            rep.require("standard_format_pictures_checked", 10);
         }
     }
     (rep, rule())
@@ -839,6 +840,48 @@ fn shard(ctx: &Ctx, s: usize, n_random: u64, thorough: bool, rep: &mut Report) {
                         rep.count(&format!("gob_probe:{}:stuffing={}", want, stuffing));
                         rep.distinct.insert(fnv64(&bytes));
                     }
+                }
+            }
+        }
+    }
+    // ---- the five standard source formats, as PTYPE format code and as PLUSPTYPE source format: decoded size ----
+    if s == 62 {
+        set("standard formats decoded");
+        for (code, fw, fh) in STD_FIXED {
+            for plus in [false, true] {
+                let cfg = crate::mon::ladder::cfg_for(&mut rng, Flavour::StdFixed, fw, fh, 0);
+                let mut pic = crate::mon::ladder::large_intra(&mut rng, &cfg);
+                if plus {
+                    if let Hdr::Std(hd) = &mut pic.hdr {
+                        let mut pl = base_plus(&mut rng);
+                        pl.src_fmt = code;
+                        pl.ptype = 0;
+                        pl.trp = None;
+                        hd.fmt = 7;
+                        hd.plus = Some(pl);
+                    }
+                }
+                let bytes = pic.encode();
+                let mut dec = Dec::new(false, false);
+                rep.evaluations += 1;
+                match dec.decode(&bytes) {
+                    Outcome::Ok => {
+                        let dims = dec.planes().map(|p| (p.w, p.h));
+                        let exp = match &pic.hdr {
+                            Hdr::Std(hh) => hh.view(false, &Inherited::default()),
+                            Hdr::Sor(hh) => hh.view(),
+                        };
+                        let got = dec.header_view().unwrap();
+                        if dims != Some((fw, fh)) {
+                            rep.violation("decoded-size/standard-format", format!("source format {} ({}x{}, {}) decodes to a picture of {:?}", code, fw, fh, if plus { "PLUSPTYPE" } else { "PTYPE" }, dims), coords());
+                        } else if let Some(f) = exp.diff(&got).first() {
+                            rep.violation(format!("decoded-header/standard-format/{}", f.split(':').next().unwrap_or("?")), format!("source format {} picture reports a different header: {}", code, f), coords());
+                        } else {
+                            rep.count("standard_format_pictures_checked");
+                        }
+                    }
+                    Outcome::Panic { msg, loc } => rep.violation(format!("panic@{}", loc), format!("standard format {} picture panicked: {}", code, msg), coords()),
+                    Outcome::Err(e) => rep.violation(format!("decoded-size/standard-format/rejected/{}", e), format!("valid intra picture in source format {} ({}) rejected with {}", code, if plus { "PLUSPTYPE" } else { "PTYPE" }, e), coords()),
                 }
             }
         }
